@@ -117,27 +117,40 @@ fn parse_at(b: &[u8], pos: &mut usize) -> Option<Fm> {
     }
 }
 
-/// Probability model of the seeds: `probs[i]` for seed index i; `group` lists the seed indices
-/// forming the (single) exclusive group, empty = all independent.
+/// Probability model of the seeds: `probs[i]` for seed index i; `groups` lists the (pairwise
+/// disjoint) exclusive groups as lists of seed indices; seeds in no group are independent.
+/// Groups are mutually independent and independent of the independent seeds.
 #[derive(Clone, Debug)]
 pub struct SeedModel {
     pub probs: Vec<f64>,
-    pub group: Vec<usize>,
+    pub groups: Vec<Vec<usize>>,
 }
 
 impl SeedModel {
+    /// one exclusive group (empty list = none), the rest independent
+    pub fn one_group(probs: Vec<f64>, group: Vec<usize>) -> SeedModel {
+        SeedModel { probs, groups: if group.is_empty() { vec![] } else { vec![group] } }
+    }
     /// Enumerate all worlds (bitmask over seed indices, weight). Worlds of weight 0 are included.
     pub fn worlds(&self) -> Vec<(u32, f64)> {
         let n = self.probs.len();
         assert!(n <= 20);
-        let indep: Vec<usize> = (0..n).filter(|i| !self.group.contains(i)).collect();
-        let choices: Vec<Option<usize>> = if self.group.is_empty() { vec![None] } else { self.group.iter().map(|g| Some(*g)).collect() };
+        let indep: Vec<usize> = (0..n).filter(|i| !self.groups.iter().any(|g| g.contains(i))).collect();
+        // one member per group: cartesian product of the groups
+        let mut choices: Vec<(u32, f64)> = vec![(0u32, 1.0)];
+        for g in self.groups.iter().filter(|g| !g.is_empty()) {
+            let mut next = Vec::with_capacity(choices.len() * g.len());
+            for (bits, w) in &choices {
+                for m in g {
+                    assert!(bits & (1u32 << *m) == 0, "exclusive groups must be disjoint");
+                    next.push((bits | (1u32 << *m), w * self.probs[*m]));
+                }
+            }
+            choices = next;
+        }
         let mut out = Vec::with_capacity(choices.len() << indep.len());
-        for c in &choices {
-            let (cbit, cw) = match c {
-                None => (0u32, 1.0),
-                Some(g) => (1u32 << *g, self.probs[*g]),
-            };
+        for (cbit, cw) in &choices {
+            let (cbit, cw) = (*cbit, *cw);
             for m in 0..(1u32 << indep.len()) {
                 let mut w = cw;
                 let mut bits = cbit;
@@ -170,6 +183,32 @@ pub type Atom = (String, String, String);
 pub struct NRule {
     pub body: Vec<Atom>,
     pub head: Vec<Atom>,
+    /// negated body atoms (negation as failure). Only used for rules of the TOP stratum: the
+    /// predicates of their heads occur in no rule body, and every variable of a negated atom is
+    /// bound by the positive body (`top_stratum_negation_only` checks this)
+    pub neg: Vec<Atom>,
+}
+
+/// the restriction under which `least_model` computes the stratified model: heads of rules with
+/// negation feed no rule, negated atoms are range-restricted
+pub fn top_stratum_negation_only(rules: &[NRule]) -> bool {
+    for r in rules.iter().filter(|r| !r.neg.is_empty()) {
+        for h in &r.head {
+            if is_var(&h.1) {
+                return false;
+            }
+            for r2 in rules {
+                if r2.body.iter().chain(r2.neg.iter()).any(|a| is_var(&a.1) || a.1 == h.1) {
+                    return false;
+                }
+            }
+        }
+        let bound: BTreeSet<&String> = r.body.iter().flat_map(|a| [&a.0, &a.1, &a.2]).filter(|t| is_var(t)).collect();
+        if r.neg.iter().flat_map(|a| [&a.0, &a.1, &a.2]).any(|t| is_var(t) && !bound.contains(t)) {
+            return false;
+        }
+    }
+    true
 }
 
 fn is_var(t: &str) -> bool {
@@ -199,28 +238,35 @@ fn subst(pat: &Atom, b: &BTreeMap<String, String>) -> Option<Atom> {
     Some((s(&pat.0)?, s(&pat.1)?, s(&pat.2)?))
 }
 
-/// least model of positive rules over a fact set (naive iteration)
+/// all bindings of a rule body over a fact set
+fn body_bindings(body: &[Atom], model: &BTreeSet<Atom>) -> Vec<BTreeMap<String, String>> {
+    let mut bs: Vec<BTreeMap<String, String>> = vec![BTreeMap::new()];
+    for pat in body {
+        let mut next = Vec::new();
+        for b in &bs {
+            for f in model {
+                if let Some(b2) = unify(pat, f, b) {
+                    next.push(b2);
+                }
+            }
+        }
+        bs = next;
+        if bs.is_empty() {
+            break;
+        }
+    }
+    bs
+}
+
+/// Least model of the positive rules over a fact set (naive iteration); then the rules with
+/// negated atoms, evaluated once against that model (they form the top stratum, see
+/// `top_stratum_negation_only`, so this is the stratified / perfect model).
 pub fn least_model(rules: &[NRule], facts: &BTreeSet<Atom>) -> BTreeSet<Atom> {
     let mut model = facts.clone();
     loop {
         let mut added = Vec::new();
-        for r in rules {
-            let mut bs: Vec<BTreeMap<String, String>> = vec![BTreeMap::new()];
-            for pat in &r.body {
-                let mut next = Vec::new();
-                for b in &bs {
-                    for f in &model {
-                        if let Some(b2) = unify(pat, f, b) {
-                            next.push(b2);
-                        }
-                    }
-                }
-                bs = next;
-                if bs.is_empty() {
-                    break;
-                }
-            }
-            for b in &bs {
+        for r in rules.iter().filter(|r| r.neg.is_empty()) {
+            for b in &body_bindings(&r.body, &model) {
                 for h in &r.head {
                     if let Some(a) = subst(h, b) {
                         if !model.contains(&a) {
@@ -231,10 +277,29 @@ pub fn least_model(rules: &[NRule], facts: &BTreeSet<Atom>) -> BTreeSet<Atom> {
             }
         }
         if added.is_empty() {
-            return model;
+            break;
         }
         model.extend(added);
     }
+    let mut top = Vec::new();
+    for r in rules.iter().filter(|r| !r.neg.is_empty()) {
+        for b in &body_bindings(&r.body, &model) {
+            let blocked = r.neg.iter().any(|na| match subst(na, b) {
+                Some(a) => model.contains(&a),
+                None => true, // unbound variable in a negated atom: the rule cannot fire
+            });
+            if blocked {
+                continue;
+            }
+            for h in &r.head {
+                if let Some(a) = subst(h, b) {
+                    top.push(a);
+                }
+            }
+        }
+    }
+    model.extend(top);
+    model
 }
 
 /// P(fact in least model) for every fact derivable in some world. `seed_facts[i]` is the triple
@@ -263,7 +328,7 @@ pub fn selftest() -> Vec<String> {
         }
     };
     let l = |i: u8| Fm::Lit(i);
-    let ind = |p: &[f64]| SeedModel { probs: p.to_vec(), group: vec![] };
+    let ind = |p: &[f64]| SeedModel { probs: p.to_vec(), groups: vec![] };
     // (x&y)|(x&z), p = .8,.6,.5 -> .8*(1-.4*.5) = .64 ; negation .36
     let overlap = Fm::Or(vec![Fm::And(vec![l(0), l(1)]), Fm::And(vec![l(0), l(2)])]);
     chk("overlap", ind(&[0.8, 0.6, 0.5]).prob(&overlap), 0.64);
@@ -279,15 +344,28 @@ pub fn selftest() -> Vec<String> {
     chk("T", ind(&[0.3]).prob(&Fm::T), 1.0);
     chk("F", ind(&[0.3]).prob(&Fm::F), 0.0);
     // exclusive group {0,1,2} with .2,.3,.5 (the repository's own fixture): P(s0) = .2
-    let g3 = SeedModel { probs: vec![0.2, 0.3, 0.5], group: vec![0, 1, 2] };
+    let g3 = SeedModel::one_group(vec![0.2, 0.3, 0.5], vec![0, 1, 2]);
     chk("excl literal", g3.prob(&l(0)), 0.2);
     chk("excl or", g3.prob(&Fm::Or(vec![l(0), l(1)])), 0.5);
     chk("excl and", g3.prob(&Fm::And(vec![l(0), l(1)])), 0.0);
     chk("excl not", g3.prob(&Fm::Not(Box::new(l(0)))), 0.8);
     chk("excl total", g3.prob(&Fm::T), 1.0);
     // group {0,1} (.5,.5) + independent 2 (.5): (s0&s2)|s1 = .25+.5
-    let g2 = SeedModel { probs: vec![0.5, 0.5, 0.5], group: vec![0, 1] };
+    let g2 = SeedModel::one_group(vec![0.5, 0.5, 0.5], vec![0, 1]);
     chk("excl mixed", g2.prob(&Fm::Or(vec![Fm::And(vec![l(0), l(2)]), l(1)])), 0.75);
+    // two groups {0,1} (.2,.8) and {2,3} (.5,.5), independent of each other
+    let gg = SeedModel { probs: vec![0.2, 0.8, 0.5, 0.5], groups: vec![vec![0, 1], vec![2, 3]] };
+    chk("2 groups total", gg.prob(&Fm::T), 1.0);
+    chk("2 groups worlds", gg.worlds().len() as f64, 4.0);
+    chk("2 groups s0&s2", gg.prob(&Fm::And(vec![l(0), l(2)])), 0.1);
+    chk("2 groups s0|s2", gg.prob(&Fm::Or(vec![l(0), l(2)])), 0.6);
+    chk("2 groups s0&s1", gg.prob(&Fm::And(vec![l(0), l(1)])), 0.0);
+    chk("2 groups !s0&s3", gg.prob(&Fm::And(vec![Fm::Not(Box::new(l(0))), l(3)])), 0.4);
+    chk("2 groups (s0&s2)|(s1&s3)", gg.prob(&Fm::Or(vec![Fm::And(vec![l(0), l(2)]), Fm::And(vec![l(1), l(3)])])), 0.5);
+    // group {0,1,2} (.2,.3,.5) + group {3,4} (.5,.5) + independent 5 (.5): (s0|s1)&s3&s5 = .5*.5*.5
+    let g32 = SeedModel { probs: vec![0.2, 0.3, 0.5, 0.5, 0.5, 0.5], groups: vec![vec![0, 1, 2], vec![3, 4]] };
+    chk("groups 3+2", g32.prob(&Fm::And(vec![Fm::Or(vec![l(0), l(1)]), l(3), l(5)])), 0.125);
+    chk("groups 3+2 worlds", g32.worlds().len() as f64, 12.0);
     // text round trip
     for f in [overlap.clone(), Fm::Not(Box::new(Fm::And(vec![l(10), Fm::T, Fm::F]))), l(3)] {
         if Fm::parse(&f.text()).as_ref() != Some(&f) {
@@ -301,8 +379,8 @@ pub fn selftest() -> Vec<String> {
     // r(x) :- q(x,y): q(a,c) = s0&s1 -> .1, r(a) -> .1 ; second proof via certain p(c,c): q(a,c) <- p(a,c),p(c,c)
     let a = |s: &str, p: &str, o: &str| (s.to_string(), p.to_string(), o.to_string());
     let rules = vec![
-        NRule { body: vec![a("?x", "p", "?y"), a("?y", "p", "?z")], head: vec![a("?x", "q", "?z")] },
-        NRule { body: vec![a("?x", "q", "?y")], head: vec![a("?x", "r", "R")] },
+        NRule { body: vec![a("?x", "p", "?y"), a("?y", "p", "?z")], head: vec![a("?x", "q", "?z")], neg: vec![] },
+        NRule { body: vec![a("?x", "q", "?y")], head: vec![a("?x", "r", "R")], neg: vec![] },
     ];
     let certain: BTreeSet<Atom> = [a("a", "p", "d")].into_iter().collect();
     let seed_facts = vec![a("a", "p", "b"), a("b", "p", "c"), a("d", "p", "c")];
@@ -314,5 +392,25 @@ pub fn selftest() -> Vec<String> {
     if wp.contains_key(&a("c", "q", "a")) {
         errs.borrow_mut().push("lineage_tt: datalog derived a non-consequence".into());
     }
+    // top-stratum negation: alarm(x) :- temp(x,high), not maint(x,yes); q(x,y) :- p(x,y) ; only(x) :- r(x,y), not q(x,y)
+    let nrules = vec![
+        NRule { body: vec![a("?x", "temp", "high")], head: vec![a("?x", "alarm", "A")], neg: vec![a("?x", "maint", "yes")] },
+        NRule { body: vec![a("?x", "p", "?y")], head: vec![a("?x", "q", "?y")], neg: vec![] },
+        NRule { body: vec![a("?x", "r", "?y")], head: vec![a("?x", "only", "O")], neg: vec![a("?x", "q", "?y")] },
+    ];
+    if !top_stratum_negation_only(&nrules) {
+        errs.borrow_mut().push("lineage_tt: top_stratum_negation_only rejects a top-stratum program".into());
+    }
+    let bad = vec![nrules[0].clone(), NRule { body: vec![a("?x", "alarm", "?y")], head: vec![a("?x", "z", "Z")], neg: vec![] }];
+    if top_stratum_negation_only(&bad) {
+        errs.borrow_mut().push("lineage_tt: top_stratum_negation_only accepts a rule above a negated rule".into());
+    }
+    // seeds: s1 temp high (.5), s1 maint yes (.2), s2 temp high (.9), a p b (.5), a r b (.5), a r c (.2)
+    let nseeds = vec![a("s1", "temp", "high"), a("s1", "maint", "yes"), a("s2", "temp", "high"), a("a", "p", "b"), a("a", "r", "b"), a("a", "r", "c")];
+    let nwp = world_probabilities(&nrules, &BTreeSet::new(), &nseeds, &ind(&[0.5, 0.2, 0.9, 0.5, 0.5, 0.2]));
+    chk("neg alarm(s1) = .5*.8", *nwp.get(&a("s1", "alarm", "A")).unwrap_or(&-1.0), 0.4);
+    chk("neg alarm(s2) = .9", *nwp.get(&a("s2", "alarm", "A")).unwrap_or(&-1.0), 0.9);
+    // only(a) = (r(a,b) & !p(a,b)) | r(a,c) = 1 - (1 - .25)(1 - .2) = .4
+    chk("neg only(a) = .4", *nwp.get(&a("a", "only", "O")).unwrap_or(&-1.0), 0.4);
     errs.into_inner()
 }
